@@ -126,6 +126,10 @@ class C08(Property):
             "by two frames, 10 % with a channel in no frame; non-trivial = >= 2 channels of different codes, or a cast, "
             "or a 2-D channel, or a user-supplied descriptor")
 
+    def enumerate(self, ctx):
+        from vf.props.c03 import long_frame_cases
+        return long_frame_cases(ctx)
+
     def searches(self, ctx):
         n = 3200 if ctx.tier == 'quick' else 40000
         return [('descriptors', strategy(), n // ctx.nshards)]
